@@ -747,7 +747,7 @@ func TestLargePayloads(t *testing.T) {
 // TestSideBySide: independent encrypters/signers and objects on several goroutines at once
 // (compressed payloads large enough that an encryption takes a while).
 func TestSideBySide(t *testing.T) {
-	ev.Parallel(t, prop, "side-by-side", 1, 40, 8, func(t *rapid.T) ECase {
+	ev.Parallel(t, prop, "side-by-side", 2, 40, 8, func(t *rapid.T) ECase {
 		return ECase{Alg: rapid.SampledFrom([]string{"dir", "A128KW", "A256GCMKW"}).Draw(t, "kalg"), Enc: rapid.SampledFrom(encAlgs).Draw(t, "enc"), Zip: rapid.IntRange(0, 3).Draw(t, "zip") > 0,
 			Text: rapid.IntRange(0, 3).Draw(t, "text") == 0, Key: rapid.IntRange(0, 100).Draw(t, "key"), KFill: rapid.Uint64().Draw(t, "kfill"),
 			Size: rapid.SampledFrom([]int{200000, 1 << 20}).Draw(t, "size"), Fill: rapid.Uint64().Draw(t, "fill"), JSON: rapid.Bool().Draw(t, "json"), AAD: -1}
